@@ -121,7 +121,9 @@ class View:
 
     # ---------------------------------------------------------------- queries
     def rules_of(self, origin: str) -> List[Expansion]:
-        return [e for e in self.expansions if e.origin == origin]
+        own = [e for e in self.expansions if e.origin == origin]
+        # `rule: ... -> name`: the alternatives that are handed to the callback `name` stand for a rule of that name
+        return own or [e for e in self.expansions if e.alias == origin]
 
     def origins(self) -> List[str]:
         seen = []
